@@ -558,6 +558,7 @@ struct Explorer<'a> {
     capped: bool,
     name: String,
     pruned: bool,
+    machinery: Vec<String>,
     last_round: u64,
     t0: Instant,
     wall_cap: Duration,
@@ -570,6 +571,14 @@ impl<'a> Explorer<'a> {
         self.max_points = self.max_points.max(x.points);
         let mut problems = Vec::new();
         if let Some(a) = &x.abort {
+            if a.starts_with("watchdog") || a.starts_with("replay diverged") || a.contains("no report") || a.contains("fork failed") || a.contains("pipe failed") {
+                // the explorer could not follow this execution (a blocking primitive it does not
+                // intercept, or its own trouble): a machinery problem, never a verdict
+                if self.machinery.len() < 3 {
+                    self.machinery.push(format!("{}: {} (schedule {:?})", self.name, a, schedule_of(x)));
+                }
+                return;
+            }
             problems.push(format!("aborted: {}", a));
         }
         if x.results != self.expected {
@@ -725,7 +734,7 @@ fn main() {
                 let warm = name.strip_prefix("warm").and_then(|r| r.split('-').next()).and_then(|n| n.parse::<usize>().ok()).unwrap_or(0);
                 WARM.store(warm, std::sync::atomic::Ordering::SeqCst);
                 let expected: Vec<Vec<String>> = expected_results(&threads);
-                let mut e = Explorer { threads: &threads, expected, bound, executions: 0, transitions: 0, max_points: 0, outcomes: BTreeMap::new(), violations: vec![], cap: 1, capped: false, name, pruned: false, last_round: 0, t0: Instant::now(), wall_cap: Duration::from_secs(60) };
+                let mut e = Explorer { threads: &threads, expected, bound, executions: 0, transitions: 0, max_points: 0, outcomes: BTreeMap::new(), violations: vec![], cap: 1, capped: false, name, pruned: false, machinery: vec![], last_round: 0, t0: Instant::now(), wall_cap: Duration::from_secs(60) };
                 let a = execute(&threads, &ch);
                 let b = execute(&threads, &ch);
                 let det = a.results == b.results && choices(&a) == choices(&b) && a.inits == b.inits;
@@ -747,7 +756,7 @@ fn main() {
         WARM.store(warm, std::sync::atomic::Ordering::SeqCst);
         let expected: Vec<Vec<String>> = expected_results(&threads);
         let t0 = Instant::now();
-        let mut e = Explorer { threads: &threads, expected, bound, executions: 0, transitions: 0, max_points: 0, outcomes: BTreeMap::new(), violations: vec![], cap, capped: false, name: name.clone(), pruned: false, last_round: 0, t0: Instant::now(), wall_cap: Duration::from_secs(if thorough { 240 } else { 6 }) };
+        let mut e = Explorer { threads: &threads, expected, bound, executions: 0, transitions: 0, max_points: 0, outcomes: BTreeMap::new(), violations: vec![], cap, capped: false, name: name.clone(), pruned: false, machinery: vec![], last_round: 0, t0: Instant::now(), wall_cap: Duration::from_secs(if thorough { 240 } else { 6 }) };
         let (bound_done, complete) = e.explore_iteratively(bound);
         // determinism: replay the last complete default schedule twice
         let a = execute(&threads, &[]);
@@ -755,6 +764,7 @@ fn main() {
         if a.results != b.results || choices(&a) != choices(&b) {
             errors.push(format!("{}: replaying the same schedule gave different observations", name));
         }
+        errors.extend(e.machinery.iter().cloned());
         total_exec += e.executions;
         total_trans += e.transitions;
         report.push(json!({
